@@ -308,3 +308,171 @@ def check_c02(mt, sess):
         for s in byname.get(name, []):
             if not isinstance(s.referent, gtirb.ProxyBlock):
                 raise core.Violation("C02", "label-position", {"symbol": name, "what": "expected a proxy referent", "referent": repr(s.referent)[:80]}, {"kind": "not-proxy"})
+
+
+# ------------------------------------------------------------------ C03
+
+
+def flatten_cfg(world, md=None):
+    """Real CFG flattened to instructions.  Returns (edges, buried, blocks)
+    edges: {src last-insn address: set of (type, cond, direct, tgtkey)}
+    tgtkey: ('addr', a) | ('proxy', frozenset(symbol names))"""
+    m = world.module
+    isa = world.isa
+    md = md or isa.cs()
+    edges = {}
+    buried = []
+    last_of = {}
+    for b in m.code_blocks:
+        if b.size == 0 or b.address is None:
+            continue
+        data = bytes(b.byte_interval.contents[b.offset : b.offset + b.size])
+        insns = list(md.disasm(data, b.address))
+        if sum(i.size for i in insns) != b.size:
+            buried.append(("undecodable", b.address))
+            continue
+        for i in insns[:-1]:
+            if isa.cs_kind(i) != "plain":
+                buried.append((isa.cs_kind(i), i.address))
+        last_of[b.uuid] = insns[-1].address
+    live = {b.uuid for b in m.byte_blocks} | {p.uuid for p in m.proxies}
+    dangling = []
+    for e in world.ir.cfg:
+        for n in (e.source, e.target):
+            if n.uuid not in live:
+                dangling.append((type(n).__name__, str(e.label.type.name if e.label else None)))
+        src = e.source
+        if not isinstance(src, gtirb.CodeBlock) or src.uuid not in last_of:
+            continue  # zero-sized blocks: out-edges ignored (documented)
+        t = e.target
+        if isinstance(t, gtirb.ProxyBlock):
+            tk = ("proxy", frozenset(s.name for s in t.references))
+        elif isinstance(t, gtirb.ByteBlock):
+            tk = ("addr", t.address) if isinstance(t, gtirb.CodeBlock) else ("data", t.address)
+        else:
+            tk = ("other", repr(t))
+        lab = e.label
+        edges.setdefault(last_of[src.uuid], set()).add(
+            (lab.type.name if lab else None, bool(lab.conditional) if lab else None, bool(lab.direct) if lab else None, tk)
+        )
+    return edges, buried, dangling, last_of
+
+
+def check_c03(mt, sess):
+    world, model = mt.world, mt.model
+    addr = mt.tok_addr()
+    real, buried, dangling, last_of = flatten_cfg(world)
+    if dangling:
+        raise core.Violation("C03", "dangling-endpoint", {"edges": sorted(dangling)[:5]}, {"kind": dangling[0][0]})
+    if buried:
+        raise core.Violation("C03", "buried-terminator", {"insns": sorted(buried, key=str)[:5]}, {"kind": buried[0][0]})
+    last_addrs = set(last_of.values())
+    exp = {}
+    toks = {}
+    for s, u in model.units():
+        for t in u.toks:
+            toks[t.id] = t
+    for src, typ, cond, direct, tgt in expected_edges_skip_pads(model):
+        a = addr.get(src)
+        if a is None:
+            continue
+        if tgt[0] == "tok":
+            ta = addr.get(tgt[1])
+            tk = ("addr", ta)
+        elif tgt[0] == "end":
+            tk = ("addr-end", tgt[1])
+        elif tgt[0] == "sym":
+            tk = ("proxy", tgt[1])
+        else:
+            tk = ("proxy", None)
+        exp.setdefault(a, set()).add((typ, cond, direct, tk))
+    section_end = {}
+    for sname, lst in mt.obs.sections.items():
+        ends = [o.addr + o.size for o in lst if o.addr is not None]
+        if ends:
+            section_end[sname] = max(ends)
+
+    def origin_of(a):
+        for tid, ta in addr.items():
+            t = toks.get(tid)
+            if ta == a and t is not None and t.is_bytes():
+                return "orig" if t.origin == "orig" else ("pad" if t.origin == "pad" else "patch")
+        return "?"
+
+    for a in sorted(set(exp) | set(real)):
+        e = exp.get(a, set())
+        r = real.get(a, set())
+        if a not in last_addrs:
+            # instruction in the middle of a block: only an implicit
+            # fallthrough is possible
+            bad = [x for x in e if x[0] != "Fallthrough"]
+            if bad:
+                raise core.Violation("C03", "buried-terminator", {"insn": a, "expected": sorted(map(str, bad))}, {"kind": "model-terminator-mid-block"})
+            continue
+        # normalise and compare
+        miss, spur = _edge_diff(e, r, section_end)
+        if miss or spur:
+            kinds = sorted({x[0] for x in miss} | {x[0] for x in spur})
+            tok_kind = next((toks[tid].ikind for tid, ta in addr.items() if ta == a and tid in toks and toks[tid].kind == "insn"), None)
+            cls = "missing-edge" if miss and not spur else ("spurious-edge" if spur and not miss else "wrong-target")
+            raise core.Violation(
+                "C03",
+                cls,
+                {"insn": a, "insn_kind": tok_kind, "missing": sorted(map(str, miss)), "spurious": sorted(map(str, spur))},
+                {"types": kinds, "insn_kind": tok_kind, "origin": origin_of(a), "layout_reordered": bool(mt.obs.reordered)},
+            )
+
+
+def expected_edges_skip_pads(model):
+    """expected_edges with padding tokens made transparent"""
+    pads = []
+    for s, u in model.units():
+        keep = []
+        for t in u.toks:
+            if t.kind == "insn" and t.ikind == "pad":
+                pads.append((u, t))
+            keep.append(t)
+    if not pads:
+        return expect.expected_edges(model)
+    saved = {}
+    for s, u in model.units():
+        saved[id(u)] = u.toks
+        u.toks = [t for t in u.toks if not (t.kind == "insn" and t.ikind == "pad") and not (t.kind == "data" and t.origin == "pad")]
+    try:
+        return expect.expected_edges(model)
+    finally:
+        for s, u in model.units():
+            u.toks = saved[id(u)]
+
+
+def _edge_diff(e, r, section_end):
+    """Compare expected and real edge sets of one instruction."""
+    e = set(e)
+    r = set(r)
+    miss = set()
+    used = set()
+    for x in sorted(e, key=str):
+        typ, cond, direct, tk = x
+        found = None
+        for y in sorted(r - used, key=str):
+            if y[0] != typ:
+                continue
+            if typ != "Fallthrough" and (y[1] != cond or y[2] != direct):
+                continue
+            ytk = y[3]
+            if tk[0] == "addr" and ytk[0] == "addr" and ytk[1] == tk[1]:
+                found = y
+            elif tk[0] == "addr-end" and ytk[0] == "addr" and ytk[1] == section_end.get(tk[1]):
+                found = y
+            elif tk[0] == "proxy" and ytk[0] == "proxy":
+                if tk[1] is None or tk[1] in ytk[1]:
+                    found = y
+            if found:
+                break
+        if found:
+            used.add(found)
+        else:
+            miss.add(x)
+    spur = r - used
+    # several expected 'anon' return edges may be satisfied by one proxy
+    return miss, spur
